@@ -362,11 +362,13 @@ class NegateExpression(UnaryExpression):
         if text.startswith("-") or (rest != text and rest[:1] in ("^", "!")):
             group = True
         # A negated product/quotient that is continued by a product/quotient to its
-        # right, or used as an exponent, must keep its grouping: -(x / z) * y
+        # right, is a divisor, or is used as an exponent, must keep its grouping:
+        # -(x / z) * y, y / -(x * z)
         parent = self.parent
         if isinstance(inner, (MultiplyExpression, DivideExpression)):
             if isinstance(parent, (MultiplyExpression, DivideExpression)):
                 group = group or parent.left is self
+                group = group or isinstance(parent, DivideExpression)
             group = group or isinstance(parent, PowerExpression)
         if group:
             inner = f"({text})"
@@ -508,6 +510,13 @@ class BinaryExpression(MathExpression):
                 self.parent, (MultiplyExpression, DivideExpression)
             )
             if parent_side == "left" and self_muldiv and parent_muldiv:
+                return True
+            # a product or quotient that is the divisor keeps its grouping: 8 / (4 * 2)
+            if (
+                parent_side == "right"
+                and self_muldiv
+                and isinstance(self.parent, DivideExpression)
+            ):
                 return True
         return False
 
